@@ -12,12 +12,16 @@ import (
 // engine cannot run poisons only the globals it would have set). Globals of every other package
 // are poisoned: reading one aborts the path as unsupported instead of seeing a wrong zero value.
 var DefaultInitPackages = []string{
-	"errors", "io", "unicode", "unicode/utf8", "unicode/utf16", "strconv", "strings", "bytes", "math", "math/bits",
+	"errors", "io", "internal/bytealg", "internal/cpu", "unicode", "unicode/utf8", "unicode/utf16", "strconv", "strings", "bytes", "math", "math/bits",
 	"sort", "slices", "encoding/base64", "encoding/binary", "encoding/hex", "net/textproto", "net/url", "net/http",
 	"context", "io/fs", "os", "syscall", "time",
 	"google.golang.org/grpc/codes", "google.golang.org/grpc/metadata",
 	"google.golang.org/protobuf/encoding/protowire",
 	"google.golang.org/protobuf/reflect/protoreflect",
+	"google.golang.org/protobuf/reflect/protoregistry",
+	"google.golang.org/grpc/internal/status",
+	"google.golang.org/grpc/status",
+	"math/rand",
 	"google.golang.org/genproto/googleapis/api/annotations",
 	"google.golang.org/protobuf/internal/errors",
 	"google.golang.org/protobuf/encoding/protodelim",
